@@ -657,16 +657,22 @@ class EFloatContext(EncodableContext):
         if x.isnan and self.nan_kind == EFloatNanKind.NONE:
             if self.nan_value is None:
                 if self.enable_inf:
-                    return Float.inf(s=x.s, ctx=self)._with_flags(x)
-                return self.maxval(s=x.s)._with_flags(x)
-            return Float(s=x.s, x=self.nan_value, ctx=self)._with_flags(x)
+                    x = Float.inf(s=x.s, ctx=self)._with_flags(x)
+                else:
+                    x = self.maxval(s=x.s)._with_flags(x)
+            else:
+                # NaN carries no sign to transfer: the substitute is used as given
+                x = Float(x=self.nan_value, ctx=self)._with_flags(x)
         elif x.isinf and not self.enable_inf:
             if self.inf_value is None:
                 if self.nan_kind != EFloatNanKind.NONE:
-                    return Float.nan(s=x.s, ctx=self)._with_flags(x)
-                return self.maxval(s=x.s)._with_flags(x)
-            return Float(s=x.s, x=self.inf_value, ctx=self)._with_flags(x)
-        elif x.is_zero() and x.s and self.nan_kind == EFloatNanKind.NEG_ZERO:
+                    x = Float.nan(s=x.s, ctx=self)._with_flags(x)
+                else:
+                    x = self.maxval(s=x.s)._with_flags(x)
+            else:
+                x = Float(s=x.s, x=self.inf_value, ctx=self)._with_flags(x)
+        # a substitute may itself be a negative zero, so this test comes last
+        if x.is_zero() and x.s and self.nan_kind == EFloatNanKind.NEG_ZERO:
             return Float(x=x, s=False, ctx=self)._with_flags(x)
         return x
 
